@@ -1,4 +1,5 @@
 import BppProofs.Lemmas.NestedRT
+import BppProofs.Lemmas.NestedBridge
 /-!
 # C17 — "nested tokenising never splits inside balanced brackets"
 
@@ -67,6 +68,22 @@ theorem nested_bracket_delimiter_witness :
     mkNested "(a,b)".toList "(".toList ")".toList ",(".toList false = .error .bpp ∧
     ∃ T, mkNested "a),(b".toList "(".toList ")".toList ",()".toList false = .ok T ∧
       T.tokens = ["a".toList, "b".toList] := ⟨by rfl, _, rfl, rfl⟩
+
+/-- **the two transcriptions of `NestedStringTokenizer(s, "(", ")", d)` agree** whenever the
+constructor returns: the character-level `Keyval.nested` (on which `parse_render`,
+`changeKeyvals_exact`, `nested_balanced` rest) returns the tokens of the position-level `mkNested`
+(on which this file rests).  Delimiters other than the parentheses (KeyvalTools passes `,`).
+FULL statement also has the converse for the raising case (`mkNested … = .error .bpp →
+Keyval.nested … = none`, "Unclosed block"): not proved (the two agree on it on every run of the
+differential check and on all strings over {a ( ) , space} up to length 7). -/
+theorem keyval_nested_is_nested_tokenizer_partial (s d : Str) (ho : d.contains '(' = false)
+    (hc : d.contains ')' = false) (hs : s.length < 2147483648) (T : Tokenizer)
+    (h : mkNested s ['('] [')'] d false = .ok T) :
+    Keyval.nested (fun c => d.contains c) false 0 s = some T.tokens :=
+  nested_eq_mkNested s d ho hc hs T h
+
+example : mkNested "f(a,b),g".toList ['('] [')'] [','] false
+    = .ok ⟨["f(a,b)".toList, "g".toList], [",".toList], 0⟩ := by rfl
 
 /-- **after `k` calls of `nextToken()`**: the same law as for the plain tokenizer -/
 theorem nested_unparse_after_next (s op en d : Str) (solid : Bool) (hs : s.length < 2147483648)
